@@ -35,7 +35,17 @@ MANIFEST_ENTRY = {
             "exactly the array buffer, and no in-place operation, setter or element-wise update on one dataset changes another "
             "(alias_free_all_histories); it is tied to the code by comparing the buffer/calibration sharing pattern of all objects of every "
             "history (.base root identities). dtype kind incl. bool through every operation (dtype_rules), Ellipsis expansion at every position. "
-            "in-place vs copy twin execution) as the failing-input search.",
+            "in-place vs copy twin execution) as the failing-input search. "
+            "Growth 5: the input forms in FRONT of the state machine are modelled (Model/DatasetExt.lean: `_normalize_axes` over None / int / bool / "
+            "float (int() truncation) / NumPy scalar (TypeError) / int and float sequences; validate_ndinfo over numeric, bool and string scalars, flat, "
+            "nested (flatten), non-numeric, ragged and non-sequence values; validate_units incl. str() of entries; ensure_valid_array over ndarray / "
+            "nested list / bare number / ragged; index items as Python or NumPy integers, lists or integer arrays, bare or tuple; from_shape; "
+            "copy(copy_custom_attributes)), with inv_stepX / inv_newX / from_shape_spec / axes_forms / ndinfo_forms / stepX_plain. Histories from the "
+            "caller's side: a rejected call is a no-op on the whole state and can be erased from any history (rejected_call_is_noop, "
+            "rejected_calls_erasable), and inplace_eq_copy is lifted to every finite history incl. rejected calls (mirror_history: in-place calls "
+            "replaced by copying calls and vice versa end in the same dataset). Tie: every history is run a second time on the real classes in the "
+            "mirrored variant and compared after every call (predicate inplace-vs-copy-history), a reject stream runs every rejection reason of every "
+            "operation (invalid component last) inside histories of valid calls, public signatures / defaults / property setters / registry are pinned.",
     "note": "Trusted: Lean kernel + propext/Classical.choice/Quot.sound; NumPy indexing/pad/sum/reshape are modelled (gather "
             "semantics) and only sampled; aliasing is modelled at reference level (which cells are shared), cell contents only as abstract tokens; array values after fourier_resample are not tracked here (C06); "
             "the attach=True side effect of get_dp_*/get_virtual_image (caches on the container) is not in the model: that the attached "
@@ -43,7 +53,12 @@ MANIFEST_ENTRY = {
             "`virtual_images` dict is not regenerated by in-place operations (observed, outside the alphabet); max/median values and "
             "mode/geometry masks are not modelled (shape/kind/calibration only); "
             "index expressions with two or more lists, None/newaxis, boolean masks and 0-d results are outside the claim "
-            "(the former is exercised as an error stream); duplicate axes in `axes=` are not generated.",
+            "(the former is exercised as an error stream); duplicate axes in `axes=` are generated for bin and crop (last entry wins, model and code "
+            "agree) but not for fourier_resample (the code transforms such an axis twice; nothing in the statement speaks about it); "
+            "pad(**kwargs) other than the default zero padding, complex / NaN calibration values and the `metadata` / `file_path` attributes are not modelled; "
+            "that a rejected call leaves the object untouched is a theorem about the model and, on the code, a correspondence comparison "
+            "(receiver compared after every rejected call) plus the mirror-history predicate - the statement itself only speaks through its "
+            "in-place == copying clause.",
     "technique": "Lean 4 proof (invariant by induction over op lists; index-map lemmas) + model-vs-implementation correspondence",
 }
 RULE = ("a case is one operation applied to a dataset state inside a history; distinct non-trivial = distinct "
@@ -59,6 +74,11 @@ ASSUMPTIONS = [
     "every array handed to Dataset*.from_array / the array setter is drawn over memory-layout classes as well as dtypes and containers: C-contiguous, Fortran order, fully transposed and permuted views, negative strides (np.flip), step-sliced views of a larger buffer, read-only; the logical values (and therefore the model input) never depend on the layout",
     "element-wise / augmented in-place updates (`ds.sampling *= 2`, `ds.origin += 1`, `ds.origin[0] = 3`, `ds.sampling[:] = …`, `ds.array[0,…] = 7`) are part of the op alphabet; element writes into `array` are applied only to datasets whose array is not (and has no live) `__getitem__` view — indexing returns NumPy views by NumPy's own semantics",
     "index-exhaustive stream: per axis {int, ':', '::2', [0, n-1]} (at most one list), every prefix length, an Ellipsis at every position incl. where it stands for zero axes, on datasets with pairwise different per-axis calibration",
+    "an integer ndarray as the list item of an index is read as a list (NumPy does; the code has the np.ndarray branch; fix 4b247d4 made it reachable)",
+    "mirror history: float / complex data of the two runs are compared with the tolerance rule (1e-9, float32 5e-4; measured maximum reported) because copy() "
+    "normalises the memory layout and float summation order follows the layout; integer / bool data, dtype, shape and calibration are compared bit by bit",
+    "mirror history: the second object is built from the same request and advanced by the same public calls in the other variant; "
+    "element writes into its array go through a writable copy when its buffer is read-only",
     "index expressions hold at most one list in the valid stream; for two-list expressions (outside the quantifier) only the fact that both model and implementation raise is compared",
 ]
 EXPLANATION = ("Theorems in Props/C03.lean are about Model/Dataset.lean (+ Model/NdIndex.lean, Model/Resample.lean); every run "
@@ -973,6 +993,20 @@ def mirror_step(ctx, shadow, cur, ret, op, res, case):
         return None
     try:
         d = same_result(nxt, shadow)
+        if d == ["array bytes"] and nxt.array.dtype.kind in "fc":
+            # float data only: copy() normalises the memory layout (C order) while the in-place run keeps the layout the earlier
+            # operations produced, and the summation order of np.sum / np.mean / the FFT follows the layout -- the two runs may
+            # differ in the last bits.  Tolerance rule of DESIGN section 3 (float64 1e-9, float32 5e-4); integer data stay exact.
+            a, b = nxt.array, shadow.array
+            comp = a.dtype.itemsize // (2 if a.dtype.kind == "c" else 1)
+            tol = 5e-4 if comp < 8 else 1e-9
+            with np.errstate(all="ignore"):
+                fin = np.isfinite(a) & np.isfinite(b)
+                same_special = np.array_equal(np.isfinite(a), np.isfinite(b)) and np.array_equal(a[~fin], b[~fin], equal_nan=True)
+                dist = float(np.max(np.abs(a[fin] - b[fin]))) / max(1.0, float(np.max(np.abs(b[fin])))) if fin.any() else 0.0
+            if same_special and dist <= tol:
+                ctx.stat_max("mirror_float_data_rel_distance", dist)
+                d = []
     except Exception as e:  # noqa
         d = [f"unreadable: {type(e).__name__}"]
     ctx.dist["mirror:compared"] += 1
@@ -1158,6 +1192,13 @@ def run_history(ctx, drv, new_req, ops_or_gen, stream="history", max_ops=12):
             # a raising operation is still part of the history: the receiver must stay coherent (whether it stayed
             # *unchanged* is a model/implementation correspondence matter, compared below)
             check_coherent(ctx, cur, case, "receiver after a raising operation")
+            # an operation whose contract is "returns a new dataset, source bit-identical" keeps that contract when it is
+            # rejected instead of returning (copying variants, copy, indexing, derived datasets).  Rejected IN-PLACE calls are
+            # covered by the mirror history (in-place run == copying run), rejected setters by the correspondence.
+            if kind in ("copy", "getitem", "dp", "vimg", "frame") or (kind in METHOD and not op.get("inplace")):
+                if after != before:
+                    ctx.pred_fail(f"source-changed-by-rejected-{kind}", f"{kind} (a call that returns a new dataset) was rejected with {res['err']} "
+                                  "and left the source changed", case, observed=snap_diff(before, after), required="source bit-identical (data and calibration)")
         else:
             check_coherent(ctx, cur, case, "receiver")
             if ret is not None:
